@@ -190,8 +190,7 @@ def finish(ctx, level="model_checking"):
             print(l)
         if len(vio_lines) > 50:
             print("... %d more violations" % (len(vio_lines) - 50))
-        if code == 0:
-            code = 1
+        code = 1          # violations judged by TLC stand whatever else went wrong in the harness (reported above on stderr)
     cov = {
         "states": max(ctx.states, 0),
         "transitions": max(ctx.transitions, 0),
